@@ -54,4 +54,5 @@ So_4 == <<FALSE, FALSE, FALSE, FALSE>>
 NoFaults == {}
 AllFaults == {"cut", "silence", "quality"}
 RestoreFaults == {"restore", "cut"}
+QualityFaults == {"quality"}
 =============================================================================
